@@ -133,6 +133,20 @@ impl RStore {
         ensures final(self).held() == old(self).held() - 1,
     { unimplemented!() }
 
+    /// Store::resolve(key) (owned model)
+    #[verifier::external_body]
+    pub fn resolve_key(&mut self, key: Key) -> (s: Stream)
+        ensures s.key == key && s == old(self).spec_get(key) && final(self).held() == old(self).held() + 1,
+    { unimplemented!() }
+
+    pub uninterp spec fn spec_get(self, key: Key) -> Stream;
+
+    /// a Ptr that goes out of scope
+    #[verifier::external_body]
+    pub fn put_back_any(&mut self, stream: Stream)
+        ensures final(self).held() == old(self).held() - 1,
+    { unimplemented!() }
+
     /// Store::find_mut: the stream with this id, if the store has one (owned model; I-recv-pool for the stored stream
     /// relative to the connection's in-flight total is ASSUMED here, it is the postcondition of every Recv function above)
     #[verifier::external_body]
@@ -154,6 +168,8 @@ pub struct Counts {
     pub max_remote_reset_streams: usize,
     /// ghost: the arguments of every Counts::record_data_frame call so far (what the DATA-frame overhead budget was charged with)
     pub charged: Ghost<Seq<usize>>,
+    /// ghost: the arguments of every Counts::release_data_frame call so far (what was credited back to the budget)
+    pub released: Ghost<Seq<usize>>,
     pub tag: u8,
 }
 impl Counts {
@@ -194,7 +210,9 @@ impl Counts {
 
     /// Counts::release_data_frame (DATA-frame overhead budget): Kani harness counts_data_frame_budget
     #[verifier::external_body]
-    pub fn release_data_frame(&mut self, payload_len: usize) { unimplemented!() }
+    pub fn release_data_frame(&mut self, payload_len: usize)
+        ensures *final(self) == (Counts { released: Ghost(old(self).released@.push(payload_len)), tag: final(self).tag, ..*old(self) }),
+    { unimplemented!() }
 }
 
 pub struct Recv {
@@ -817,6 +835,39 @@ impl SInner {
     //@spec         // payload: a peer must not be able to buy budget with padding), and never for the final frame of a stream
     //@spec         final(self).counts.charged@ == old(self).counts.charged@ || final(self).counts.charged@ == old(self).counts.charged@.push(frame.payload_len),
     //@spec         frame.eos ==> final(self).counts.charged@ == old(self).counts.charged@,
+    //@end
+}
+
+/// OpaqueStreamRef, reduced to its key
+pub struct OpaqueM { pub key: Key }
+
+impl OpaqueM {
+    // C18 / C01: the application takes the next DATA chunk.  The DATA-frame overhead budget is credited back exactly when the
+    // chunk had been charged when it was received (`is_budgeted`: every frame except the final one of a stream), with exactly
+    // its payload length — a peer must not be able to refill the budget with frames that never cost anything.  The chunk
+    // handed over is the front of the queue (Recv::poll_data above).
+    // Listed substitutions: the Mutex lock preamble is removed (`me` becomes a parameter); `Poll::map(|result| ..)` with its
+    // capturing closure is written out as the match that Poll::map is; the payload is its length.
+    //@extract src/proto/streams/streams.rs OpaqueStreamRef::poll_data
+    //@subst_re pub fn poll_data\(&mut self, cx: &Context\) -> Poll<Option<Result<Bytes, proto::Error>>>=>pub fn poll_data(&mut self, cx: &Context, me: &mut SInner) -> Poll<Option<Result<usize, Error>>>
+    //@subst_re let mut me = self\.inner\.lock\(\)\.unwrap\(\);\s*let me = &mut \*me;=>
+    //@subst let mut stream = me.store.resolve(self.key);=>let mut stream = me.store.resolve_key(self.key); let ghost q0 = stream.pending_recv@;
+    //@subst_re me\.actions\s*\.recv\s*\.poll_data\(cx, &mut stream\)\s*\.map\(\|result\| match result \{ ==>> let _p = me.actions.recv.poll_data(cx, &mut stream); me.store.put_back_any(stream); match _p { Poll::Pending => Poll::Pending, Poll::Ready(result) => Poll::Ready(match result {
+    //@subst me.counts.release_data_frame(data.payload.len());=>me.counts.release_data_frame(data.payload_len);
+    //@subst Some(Ok(data.payload))=>Some(Ok(data.payload_len))
+    //@subst_re None => None,\s*\}\)(\s*\}\s*)$ ==>> None => None, }) }\1
+    //@ret r
+    //@spec     ensures
+    //@spec         final(me).store.held() == old(me).store.held(),
+    //@spec         final(me).counts.charged@ == old(me).counts.charged@,
+    //@spec         ({ let q = old(me).store.spec_get(old(self).key).pending_recv@;
+    //@spec            if q.len() > 0 && q[0] is Data {
+    //@spec                let d = q[0]->Data_0;
+    //@spec                &&& r == Poll::<Option<Result<usize, Error>>>::Ready(Some(Ok(d.payload_len)))
+    //@spec                &&& final(me).counts.released@ == (if d.is_budgeted { old(me).counts.released@.push(d.payload_len) } else { old(me).counts.released@ })
+    //@spec            } else {
+    //@spec                final(me).counts.released@ == old(me).counts.released@
+    //@spec            } }),
     //@end
 }
 
